@@ -115,8 +115,14 @@ pub fn run() {
                 }
             }));
         }
+        // poison=i:k - before the k-th later message of stream i a complete message of another type is sent on its channel: the
+        // stream must yield one error item for it and go on with everything that follows
+        let poison: Option<(usize, u32)> = a.get("poison").and_then(|s| s.split_once(':').map(|(x, y)| (x.parse().unwrap(), y.parse().unwrap())));
         for (i, p) in plan.iter().enumerate() {
             for q in 0..p.1 {
+                if poison == Some((i, q)) {
+                    let _ = txs[i].as_ref().unwrap().clone().to_opaque().to::<u8>().send(7);
+                }
                 let _ = txs[i].as_ref().unwrap().send((i as u32, p.0 + q));
             }
         }
